@@ -26,7 +26,7 @@ func recordBatchSize(msgs ...Message) (size int32) {
 
 	for i := range msgs {
 		msg := &msgs[i]
-		msz := recordSize(msg, msg.Time.Sub(baseTime), int64(i))
+		msz := recordSize(msg, timestampDelta(msg.Time, baseTime), int64(i))
 		size += int32(msz + varIntLen(int64(msz)))
 	}
 
@@ -93,6 +93,15 @@ func (r *recordBatch) writeTo(wb *writeBuffer) {
 			}
 		})
 	}
+}
+
+// timestampDelta returns the difference between the kafka timestamps (in
+// milliseconds) of t and base. The record batch header carries the timestamp
+// of the base time truncated to the millisecond and consumers add the delta to
+// it, so the delta has to be computed on the truncated values: truncating the
+// difference of the times instead can be off by one millisecond.
+func timestampDelta(t, base time.Time) time.Duration {
+	return time.Duration(timestamp(t)-timestamp(base)) * time.Millisecond
 }
 
 func recordSize(msg *Message, timestampDelta time.Duration, offsetDelta int64) int {
